@@ -11,16 +11,17 @@ The acknowledgements owed to the broker are `ControlAction`s appended to `Outbou
 encoded from the action into a 9-byte stack buffer when they are transmitted (`encodeControl`), never
 into the transmit arena.
 
-FINDING at the level of `handle_packet` (see `C04_finding_qos2_lost_when_control_full`): for an inbound
-QoS 2 PUBLISH the identifier is recorded *before* `queue_control` is attempted. If the control queue is
-full at that moment the poll returns `InflightExhausted`, the publish is not delivered, no PUBREC is
-queued, the connection stays up — and every later retransmission of that PUBLISH is treated as a
-duplicate: acknowledged, never delivered. The same ordering makes the `PacketTooLarge` exit of
-`C04_ack_outcome` lose the message (identifier recorded, connection dropped, retransmission on the
-resumed session swallowed); that exit needs a broker announcing a Maximum Packet Size below 5.
-Whether a full control queue is reachable through the API is NOT settled here: `drive_packet` writes
-every owed acknowledgement before it reads the next packet (`Ops.driveLoop`), which suggests the queue
-never holds more than a couple of entries; no invariant to that effect is proved.
+REPAIRED DEFECT (F24). Until the repair, the identifier of an inbound QoS 2 PUBLISH was recorded
+*before* the size check and `queue_control`; on either failure exit (`PacketTooLarge`: the broker's
+Maximum Packet Size is below the five bytes of a PUBREC, the connection is closed; `InflightExhausted`:
+the control queue is full) the publish was neither delivered nor acknowledged but its identifier stayed
+recorded, so the broker's retransmission — on the resumed session — was taken for a duplicate and
+swallowed: the message was lost. The crate now records the identifier only after the PUBREC has been
+queued, and so does the model: on both failure exits the session data is unchanged
+(`C04_unacknowledged_qos2_not_recorded`), an identifier enters the list only in a step that queues its
+PUBREC and delivers the publish (`C04_recorded_only_with_pubrec`, `C04_recorded_ids_were_acknowledged`),
+and the former witness history now delivers the message on the retransmission
+(`C04_example_F24_retransmission_delivered`).
 -/
 namespace Minimq
 open Gen Outbound
@@ -75,17 +76,32 @@ theorem C04_qos1_delivered_and_acked (d : SessionData) (r : Runtime) (t : Bytes)
   rw [C04_qos1 d r t id pr pl rt dup hid, (C04_ack_outcome d r _ true).2.1 hsz hroom]
   simp only [qos1Rc, hfree, Bool.false_eq_true, if_false]
 
-/-- **QoS 2** (identifier ≠ 0; `qos` is 2 for every decoded packet): first the identifier list is
-updated (`qos2Ids`: unchanged if the identifier is already pending; else appended if there is room; else
-unchanged with reason Receive Maximum Exceeded), then a PUBREC with the same identifier is owed. The
-publish is delivered iff the identifier was not pending and there was room for it — and the PUBREC could
-be queued. -/
+/-- **The three outcomes of owing the PUBREC for an inbound QoS 2 PUBLISH** (`ackOutcome2`): as
+`C04_ack_outcome`, and the list of inbound QoS 2 identifiers becomes `ids` exactly in the case in which
+the PUBREC is queued; on the two error exits the session data is unchanged altogether. -/
+theorem C04_ack_outcome2 (d : SessionData) (r : Runtime) (a : ControlAction) (deliver : Bool) (ids : List Nat) :
+    (r.packetTooLarge 5 = true → ackOutcome2 d r a deliver ids = (d, r, .error .packetTooLarge)) ∧
+    (r.packetTooLarge 5 = false → d.outbound.control.length < MAX_PENDING_CONTROL →
+      ackOutcome2 d r a deliver ids =
+        ({ d with pendingServerIds := ids, outbound := { d.outbound with
+            control := d.outbound.control ++ [{ action := a, state := .write 0 }] } }, r, .ok deliver)) ∧
+    (r.packetTooLarge 5 = false → ¬ d.outbound.control.length < MAX_PENDING_CONTROL →
+      ackOutcome2 d r a deliver ids = (d, r, .error .inflightExhausted)) := by
+  unfold ackOutcome2
+  refine ⟨fun h => by simp [h], fun h1 h2 => by simp [h1, h2, SessionData.withControl], fun h1 h2 => by simp [h1, h2]⟩
+
+/-- **QoS 2** (identifier ≠ 0; `qos` is 2 for every decoded packet): a PUBREC with the same identifier
+is owed — reason Success if the identifier is already pending or there is room for it, Receive Maximum
+Exceeded otherwise (`(qos2Ids ..).2`) — and only if it can be queued is the identifier list updated
+(`(qos2Ids ..).1`: unchanged if the identifier is already pending; else appended if there is room; else
+unchanged). The publish is delivered iff the identifier was not pending and there was room for it — and
+the PUBREC could be queued. -/
 theorem C04_qos2 (d : SessionData) (r : Runtime) (t : Bytes) (id : Nat) (pr pl : Bytes) (rt dup : Bool) (qos : Nat)
     (hid : id ≠ 0) (hq0 : qos ≠ 0) (hq1 : qos ≠ 1) :
     handlePacket d r (.publish t (some id) pr pl rt qos dup) =
-      ackOutcome { d with pendingServerIds := (qos2Ids d.pendingServerIds id).1 } r
-        { typ := MT_PubRec, id := id, rc := (qos2Ids d.pendingServerIds id).2 }
-        (!d.pendingServerIds.contains id && decide (d.pendingServerIds.length < MAX_INBOUND_QOS2)) :=
+      ackOutcome2 d r { typ := MT_PubRec, id := id, rc := (qos2Ids d.pendingServerIds id).2 }
+        (!d.pendingServerIds.contains id && decide (d.pendingServerIds.length < MAX_INBOUND_QOS2))
+        (qos2Ids d.pendingServerIds id).1 :=
   handlePacket_publish2 d r t id pr pl rt dup qos hid hq0 hq1
 
 /-- QoS 2, first arrival: the identifier is recorded, PUBREC(Success) is appended at the end of the
@@ -99,7 +115,7 @@ theorem C04_qos2_first (d : SessionData) (r : Runtime) (t : Bytes) (id : Nat) (p
                   [{ action := { typ := MT_PubRec, id := id, rc := RC_Success }, state := .write 0 }] } },
         r, .ok true) := by
   rw [C04_qos2 d r t id pr pl rt dup 2 hid (by decide) (by decide),
-    (C04_ack_outcome { d with pendingServerIds := (qos2Ids d.pendingServerIds id).1 } r _ _).2.1 hsz hroom]
+    (C04_ack_outcome2 d r _ _ _).2.1 hsz hroom]
   have hm : id ∉ d.pendingServerIds := by simpa using hnew
   simp [qos2Ids, hm, hcap]
 
@@ -113,7 +129,7 @@ theorem C04_qos2_duplicate (d : SessionData) (r : Runtime) (t : Bytes) (id : Nat
       ({ d with outbound := { d.outbound with control := d.outbound.control ++
           [{ action := { typ := MT_PubRec, id := id, rc := RC_Success }, state := .write 0 }] } }, r, .ok false) := by
   rw [C04_qos2 d r t id pr pl rt dup 2 hid (by decide) (by decide),
-    (C04_ack_outcome { d with pendingServerIds := (qos2Ids d.pendingServerIds id).1 } r _ _).2.1 hsz hroom]
+    (C04_ack_outcome2 d r _ _ _).2.1 hsz hroom]
   have hm : id ∈ d.pendingServerIds := by simpa using hdup
   simp [qos2Ids, hm]
 
@@ -127,7 +143,7 @@ theorem C04_qos2_overflow (d : SessionData) (r : Runtime) (t : Bytes) (id : Nat)
           [{ action := { typ := MT_PubRec, id := id, rc := RC_ReceiveMaxExceeded }, state := .write 0 }] } },
         r, .ok false) := by
   rw [C04_qos2 d r t id pr pl rt dup 2 hid (by decide) (by decide),
-    (C04_ack_outcome { d with pendingServerIds := (qos2Ids d.pendingServerIds id).1 } r _ _).2.1 hsz hroom]
+    (C04_ack_outcome2 d r _ _ _).2.1 hsz hroom]
   have hm : id ∉ d.pendingServerIds := by simpa using hnew
   simp [qos2Ids, hm, hfull]
 
@@ -179,12 +195,16 @@ theorem C04_ack_order_kept (o : Outbound) (a : ControlAction) :
     ((o.flushControl a).control.map (·.action)).Sublist (o.control.map (·.action)) :=
   flushControl_sublist o a
 
-/-- **The pending identifiers change only on an inbound QoS 2 PUBLISH and on an inbound PUBREL.** -/
+/-- **The pending identifiers change only on an inbound QoS 2 PUBLISH whose PUBREC is queued, and on an
+inbound PUBREL.** -/
 theorem C04_pending_ids_changed_only_by (d : SessionData) (r : Runtime) (p : Recv) :
     (handlePacket d r p).1.pendingServerIds =
       match p with
       | .publish _ (some id) _ _ _ qos _ =>
-        if qos = 0 ∨ qos = 1 ∨ id = 0 then d.pendingServerIds else (qos2Ids d.pendingServerIds id).1
+        if qos = 0 ∨ qos = 1 ∨ id = 0 then d.pendingServerIds
+        else if r.packetTooLarge 5 = false ∧ d.outbound.control.length < MAX_PENDING_CONTROL then
+          (qos2Ids d.pendingServerIds id).1
+        else d.pendingServerIds
       | .pubRel id _ =>
         if id ≠ 0 ∧ d.pendingServerIds.contains id then handlePacket.swapRemove d.pendingServerIds id
         else d.pendingServerIds
@@ -265,18 +285,154 @@ def C04_full : SessionData :=
   { outbound := { (Outbound.new 8) with
       control := List.replicate 8 { action := { typ := MT_PubAck, id := 3, rc := 0 }, state := .write 0 } } }
 
-/-- **FINDING.** An inbound QoS 2 PUBLISH that arrives while the control queue is full is lost: the
-poll reports `InflightExhausted` (the connection stays up, `process_received_packet` only disconnects
-on three other errors), nothing is delivered, no PUBREC is queued, but identifier 9 has already been
-recorded — so when the broker retransmits the PUBLISH (here: after the queue has drained) it is taken
-for a duplicate and not delivered either. -/
-theorem C04_finding_qos2_lost_when_control_full :
-    let p : Recv := .publish [0x61] (some 9) [] [1] false 2 false
-    let step1 := handlePacket C04_full C04_rt p
-    step1.2.2 = .error .inflightExhausted ∧ step1.1.pendingServerIds = [9] ∧
-    step1.1.outbound.control = C04_full.outbound.control ∧
-    (handlePacket { step1.1 with outbound := Outbound.new 8 } C04_rt
-      (.publish [0x61] (some 9) [] [1] false 2 true)).2.2 = .ok false := by
-  refine ⟨?_, ?_, ?_, ?_⟩ <;> first | rfl | decide
+/-- **An inbound QoS 2 PUBLISH whose PUBREC cannot be queued leaves no trace** (repair of F24). If the
+broker's Maximum Packet Size is below the five bytes of a PUBREC, or the control queue is full, handling
+the PUBLISH changes neither the session data nor the runtime and reports the error (`PacketTooLarge`,
+after which `process_received_packet` closes the connection, resp. `InflightExhausted`). In particular
+the identifier is not recorded, so the broker's retransmission — on this or on a later, resumed
+connection — is handled as a first arrival. -/
+theorem C04_unacknowledged_qos2_not_recorded (d : SessionData) (r : Runtime) (t : Bytes) (id : Nat) (pr pl : Bytes)
+    (rt dup : Bool) (qos : Nat) (hid : id ≠ 0) (hq0 : qos ≠ 0) (hq1 : qos ≠ 1) :
+    (r.packetTooLarge 5 = true →
+      handlePacket d r (.publish t (some id) pr pl rt qos dup) = (d, r, .error .packetTooLarge)) ∧
+    (r.packetTooLarge 5 = false → ¬ d.outbound.control.length < MAX_PENDING_CONTROL →
+      handlePacket d r (.publish t (some id) pr pl rt qos dup) = (d, r, .error .inflightExhausted)) := by
+  rw [C04_qos2 d r t id pr pl rt dup qos hid hq0 hq1]
+  exact ⟨(C04_ack_outcome2 d r _ _ _).1, (C04_ack_outcome2 d r _ _ _).2.2⟩
+
+/-- **An identifier is recorded only together with its PUBREC.** If handling an inbound packet puts an
+identifier into the list that was not there, the packet is a QoS 2 PUBLISH with that identifier, the
+PUBREC with reason Success for it was appended to the control queue in this same step, and the publish
+is delivered to the application. -/
+theorem C04_recorded_only_with_pubrec (d : SessionData) (r : Runtime) (p : Recv) (id : Nat)
+    (hnew : id ∈ (handlePacket d r p).1.pendingServerIds) (hold : id ∉ d.pendingServerIds) :
+    (∃ t pr pl rt qos dup, p = .publish t (some id) pr pl rt qos dup ∧ qos ≠ 0 ∧ qos ≠ 1) ∧ id ≠ 0 ∧
+    (handlePacket d r p).1.outbound.control = d.outbound.control ++
+      [{ action := { typ := MT_PubRec, id := id, rc := RC_Success }, state := .write 0 }] ∧
+    (handlePacket d r p).2.2 = .ok true ∧
+    (handlePacket d r p).1.pendingServerIds = d.pendingServerIds ++ [id] := by
+  have hp := C04_pending_ids_changed_only_by d r p
+  cases p with
+  | publish t i pr pl rt qos dup =>
+    cases i with
+    | none => simp only [] at hp; rw [hp] at hnew; exact absurd hnew hold
+    | some i =>
+      simp only [] at hp
+      by_cases h1 : qos = 0 ∨ qos = 1 ∨ i = 0
+      · rw [if_pos h1] at hp; rw [hp] at hnew; exact absurd hnew hold
+      · rw [if_neg h1] at hp
+        have hq0 : qos ≠ 0 := fun h => h1 (Or.inl h)
+        have hq1 : qos ≠ 1 := fun h => h1 (Or.inr (Or.inl h))
+        have hi : i ≠ 0 := fun h => h1 (Or.inr (Or.inr h))
+        by_cases h2 : r.packetTooLarge 5 = false ∧ d.outbound.control.length < MAX_PENDING_CONTROL
+        · rw [if_pos h2] at hp
+          rw [hp] at hnew
+          unfold qos2Ids at hnew hp
+          by_cases hc : d.pendingServerIds.contains i = true
+          · rw [if_pos hc] at hnew; exact absurd hnew hold
+          · rw [if_neg hc] at hnew hp
+            by_cases hl : d.pendingServerIds.length < MAX_INBOUND_QOS2
+            · rw [if_pos hl] at hnew hp
+              have hii : id = i := by
+                rcases List.mem_append.mp hnew with hm | hm
+                · exact absurd hm hold
+                · simpa using hm
+              subst hii
+              have hm : id ∉ d.pendingServerIds := by simpa using hc
+              refine ⟨⟨t, pr, pl, rt, qos, dup, rfl, hq0, hq1⟩, hi, ?_, ?_, hp⟩
+              · rw [C04_qos2 d r t id pr pl rt dup qos hi hq0 hq1, (C04_ack_outcome2 d r _ _ _).2.1 h2.1 h2.2]
+                simp [qos2Ids, hm, hl]
+              · rw [C04_qos2 d r t id pr pl rt dup qos hi hq0 hq1, (C04_ack_outcome2 d r _ _ _).2.1 h2.1 h2.2]
+                simp [hm, hl]
+            · rw [if_neg hl] at hnew; exact absurd hnew hold
+        · rw [if_neg h2] at hp; rw [hp] at hnew; exact absurd hnew hold
+  | pubRel i rs =>
+    simp only [] at hp
+    rw [hp] at hnew
+    split at hnew
+    · rename_i hc
+      have hm : i ∈ d.pendingServerIds := by simpa using hc.2
+      have hperm := swapRemove_perm d.pendingServerIds i hm
+      exact absurd (List.mem_of_mem_erase (hperm.mem_iff.mp hnew)) hold
+    · exact absurd hnew hold
+  | connAck sp rc props => rw [hp] at hnew; exact absurd hnew hold
+  | pingResp => rw [hp] at hnew; exact absurd hnew hold
+  | disconnect rc props => rw [hp] at hnew; exact absurd hnew hold
+  | subAck i props codes => rw [hp] at hnew; exact absurd hnew hold
+  | unsubAck i props codes => rw [hp] at hnew; exact absurd hnew hold
+  | pubAck i rs => rw [hp] at hnew; exact absurd hnew hold
+  | pubRec i rs => rw [hp] at hnew; exact absurd hnew hold
+  | pubComp i rs => rw [hp] at hnew; exact absurd hnew hold
+
+/-- Along a chain of steps: an identifier that is in the list at the end and was not at the start
+entered it in one particular step. -/
+theorem Reach.pending_gain {I : Session → Prop} {s0 s : Session} (h : Reach I s0 s) {id : Nat}
+    (h1 : id ∉ s0.data.pendingServerIds) (h2 : id ∈ s.data.pendingServerIds) :
+    ∃ a b, Reach I s0 a ∧ SessStep a b ∧ Reach I b s ∧ id ∉ a.data.pendingServerIds ∧ id ∈ b.data.pendingServerIds := by
+  induction h with
+  | refl => exact absurd h2 h1
+  | @tail b c hr st hi ih =>
+    by_cases hb : id ∈ b.data.pendingServerIds
+    · obtain ⟨x, y, r1, sxy, r2, hx, hy⟩ := ih hb
+      exact ⟨x, y, r1, sxy, r2.tail st hi, hx, hy⟩
+    · exact ⟨b, c, hr, st, Reach.refl _, hb, h2⟩
+
+/-- **Every recorded identifier was acknowledged and delivered, for all programs.** After any program,
+for every identifier in `pending_server_packet_ids` the execution contains one particular primitive step
+`a → b` — the handling of an inbound QoS 2 PUBLISH with that identifier — in which the identifier was
+recorded, the PUBREC (reason Success) for it was appended to the control queue, and the publish was
+handed to the application. -/
+theorem C04_recorded_ids_were_acknowledged (cfg : Cfg) (ds : List Directive) :
+    let s := (ds.foldl World.execDirective { sess := Session.new cfg }).sess
+    ∀ id ∈ s.data.pendingServerIds,
+      ∃ a b p, Reach (fun _ => True) (Session.new cfg) a ∧ b = (a.handle p).1 ∧ Reach (fun _ => True) b s ∧
+        (∃ t pr pl rt qos dup, p = .publish t (some id) pr pl rt qos dup ∧ qos ≠ 0 ∧ qos ≠ 1) ∧
+        b.data.outbound.control = a.data.outbound.control ++
+          [{ action := { typ := MT_PubRec, id := id, rc := RC_Success }, state := .write 0 }] ∧
+        (a.handle p).2 = .ok true ∧ id ∉ a.data.pendingServerIds := by
+  intro s id hid
+  have hr : Reach (fun _ => True) (Session.new cfg) s :=
+    run_reach Closed.true ds { sess := Session.new cfg } trivial
+  obtain ⟨a, b, r1, st, r2, ha, hb⟩ := hr.pending_gain (by simp [Session.new]) hid
+  rcases st.classify with hq | ⟨p, rfl⟩ | ⟨block, now, rfl⟩
+  · rw [hq.pending] at hb; exact absurd hb ha
+  · rw [Session.handle_fst_data] at hb
+    obtain ⟨h1, _, h3, h4, _⟩ := C04_recorded_only_with_pubrec a.data a.rt p id hb ha
+    refine ⟨a, _, p, r1, rfl, r2, h1, ?_, ?_, ha⟩
+    · rw [Session.handle_fst_data]; exact h3
+    · show (handlePacket a.data a.rt p).2.2 = .ok true
+      exact h4
+  · rw [(activate_false_data a block now).2.1] at hb; simp at hb
+
+/-! ### The former witness of F24, as a program -/
+
+def C04_F24_cfg : Cfg :=
+  { rx := 64, tx := 128, keepaliveS := 0, expiry := 300, downgrade := false, clientId := [0x63], auth := none, will := none }
+
+/-- The CONNACK announces Maximum Packet Size 4; an inbound QoS 2 PUBLISH with identifier 1 arrives;
+`poll` fails with `PacketTooLarge` and closes the connection. The client reconnects, the broker resumes
+the session (no size limit this time) and retransmits the PUBLISH with the DUP flag. -/
+def C04_F24_prog : List Directive :=
+  [.connect, .rx [0x20, 0x08, 0x00, 0x00, 0x05, 0x27, 0x00, 0x00, 0x00, 0x04], .go,
+   .rx [0x34, 0x07, 0x00, 0x01, 0x74, 0x00, 0x01, 0x00, 0x70], .poll, .go,
+   .connect, .rx [0x20, 0x03, 0x01, 0x00, 0x00], .go,
+   .rx [0x3c, 0x07, 0x00, 0x01, 0x74, 0x00, 0x01, 0x00, 0x70], .poll, .go]
+
+set_option maxRecDepth 8192 in
+/-- After the first `poll`: the error is `PacketTooLarge`, the connection is closed, nothing was
+delivered or queued — and, since the repair, identifier 1 is NOT recorded. After the retransmission on
+the resumed connection: the message IS delivered (`ret poll ok msg`, payload `70`), identifier 1 is
+recorded and its PUBREC is queued. (Before the repair the retransmission was PUBRECed as a duplicate and
+never delivered.) -/
+theorem C04_example_F24_retransmission_delivered :
+    let w1 := (C04_F24_prog.take 6).foldl World.execDirective { sess := Session.new C04_F24_cfg }
+    let w2 := C04_F24_prog.foldl World.execDirective { sess := Session.new C04_F24_cfg }
+    (match w1.lastRes with | some (.error .packetTooLarge) => true | _ => false) = true ∧ w1.live = false ∧
+    w1.sess.data.pendingServerIds = [] ∧ w1.sess.data.outbound.control = [] ∧
+    w2.live = true ∧ w2.sess.data.pendingServerIds = [1] ∧
+    w2.sess.data.outbound.control.map (·.action) = [{ typ := MT_PubRec, id := 1, rc := RC_Success }] ∧
+    w2.out.contains "ret poll ok msg @0" = true ∧
+    w2.out.contains "msg topic=74 payload=70 qos=2 retain=0 props=- iter=- rt=none cd=none" = true := by
+  decide +kernel
 
 end Minimq
